@@ -296,6 +296,7 @@ func referenceLine(l []byte, bh *Header) error {
 		old.id = -1
 		bh.refs[dupID] = rf
 		rf.owner = bh
+		rf.id = dupID
 		return nil
 	}
 	if !nok || !lok {
